@@ -307,7 +307,7 @@ def run(R, replay=None):
         shutil.rmtree(repo, ignore_errors=True)
         shutil.rmtree(tmpd, ignore_errors=True)
     # ---- the reader of the tool's output goes away while it runs (bandit-baseline ... | head -1)
-    for plan in (("real", "real"), ("1", "0")):
+    for plan, nlines in [(pl, n_) for pl in (("real", "real"), ("1", "0")) for n_ in (1, 3, 4, 5, 6)]:
         k += 1
         repo = os.path.join(base, "q%d" % k)
         cur, parent = make_repo(repo)
@@ -322,7 +322,8 @@ def run(R, replay=None):
             env.pop(k_, None)
         code = "import sys; sys.argv = ['bandit-baseline', 'a.py', 'b.py']; from bandit.cli import baseline as b; b.main()"
         p_ = subprocess.Popen([core.PY, "-u", "-c", code], cwd=repo, env=env, stdout=subprocess.PIPE, stderr=subprocess.DEVNULL)
-        p_.stdout.readline()          # the first log line, then the reader closes its end
+        for _ in range(nlines):       # like "| head -<nlines>": the reader takes some lines, then closes its end
+            p_.stdout.readline()
         p_.stdout.close()
         try:
             rc = p_.wait(timeout=300)
@@ -331,7 +332,7 @@ def run(R, replay=None):
             rc = "timeout"
         after = snapshot(repo)
         left = os.listdir(tmpd)
-        R.case(("closed-pipe", plan), sample={"bandit_runs": plan, "exit": rc, "head_restored": after["head"] == cur, "tmp_left": len(left)})
+        R.case(("closed-pipe", plan, nlines), sample={"bandit_runs": plan, "lines_read": nlines, "exit": rc, "head_restored": after["head"] == cur, "tmp_left": len(left)})
         R.count("process")
         problems = []
         if after["head"] != cur or after["branch_sha"] != cur:
@@ -342,7 +343,7 @@ def run(R, replay=None):
             problems.append("temporary directory left behind")
         if problems:
             R.violations.append({"what": "the reader of bandit-baseline's output closed the pipe while it ran: " + "; ".join(problems),
-                                 "input": {"bandit_runs": plan, "stdout": "pipe closed after the first line"}, "observed": {"exit": rc}, "signature": None})
+                                 "input": {"bandit_runs": plan, "stdout": "pipe closed by the reader after %d lines" % nlines}, "observed": {"exit": rc}, "signature": None})
         shutil.rmtree(repo, ignore_errors=True)
         shutil.rmtree(tmpd, ignore_errors=True)
     # ---- refusals: nothing is reset, exit status 2
